@@ -111,6 +111,26 @@ func init() {
 			s.assume(And(Ge(strLen(r), IntLit(0)), Implies(Ge(n, IntLit(2)), Ge(strLen(r), strLen(args[1])))))
 			return []*Term{r}
 		},
+		"os/exec.CommandContext":  nonNilResult(1, "exec.CommandContext returns a non-nil *Cmd"),
+		"os/exec.Command":         nonNilResult(1, "exec.Command returns a non-nil *Cmd"),
+		"context.Background":      nonNilResult(1, "context.Background returns a non-nil context"),
+		"context.WithTimeout":     nonNilResult(2, "context.WithTimeout returns a non-nil context and a non-nil cancel function"),
+		"bytes.NewReader":         nonNilResult(1, "bytes.NewReader returns a non-nil reader"),
+		"bytes.NewBuffer":         nonNilResult(1, "bytes.NewBuffer returns a non-nil buffer"),
+		"bytes.Buffer.String": opaqueNoEffect("(*bytes.Buffer).String: no effect on program state; result unconstrained"),
+		"bytes.Buffer.Bytes":  opaqueNoEffect("(*bytes.Buffer).Bytes: no effect on program state; result unconstrained"),
+		"bytes.Buffer.Len":    opaqueNoEffect("(*bytes.Buffer).Len: no effect on program state; result unconstrained"),
+		"os/exec.Cmd.Run":     opaqueNoEffect("(*exec.Cmd).Run: runs the external process; writes only the Stdout/Stderr writers it was given (library buffers); returns an error or nil"),
+		"bytes.HasSuffix": func(vc *VC, s *State, call *ast.CallExpr, args []*Term) []*Term {
+			vc.prog.Assumed["bytes.HasSuffix(a, b): len(a) >= len(b) and the last len(b) bytes of a equal b"] = true
+			a, b := args[0], args[1]
+			la, lb := sliceLen(a), sliceLen(b)
+			i := BoundVar("hi", SInt)
+			eqs := Forall([]*Term{i}, Implies(And(Le(IntLit(0), i), Lt(i, lb)), Eq(Select(sliceElems(a), Add(Sub(la, lb), i)), Select(sliceElems(b), i))))
+			r := Fresh("hassuffix", SBool)
+			s.assume(Eq(r, And(Ge(la, lb), eqs)))
+			return []*Term{r}
+		},
 		"strings.Split": func(vc *VC, s *State, call *ast.CallExpr, args []*Term) []*Term {
 			vc.prog.Assumed["strings.Split(s, sep) with non-empty sep: at least one piece; the last piece is s after the last occurrence of sep (s itself if sep does not occur)"] = true
 			T := types.NewSlice(types.Typ[types.String])
@@ -260,4 +280,37 @@ func (vc *VC) pureStdCall(s *State, call *ast.CallExpr, key string, sig *types.S
 func lastSegTerm(str, sep *Term) *Term {
 	idx := App("std.strings.LastIndex", SInt, str, sep)
 	return Ite(Lt(idx, IntLit(0)), str, strSub(str, Add(idx, strLen(sep)), strLen(str)))
+}
+
+// nonNilResult: a library constructor whose results are non-nil; otherwise opaque (no effect on modelled state).
+func nonNilResult(n int, doc string) stdModel {
+	return func(vc *VC, s *State, call *ast.CallExpr, args []*Term) []*Term {
+		vc.prog.Assumed[doc] = true
+		out := make([]*Term, n)
+		for i := range out {
+			out[i] = vc.allocRef(s, "lib", nil)
+		}
+		return out
+	}
+}
+
+// opaqueNoEffect: a library call with unconstrained results that does not modify any modelled program state.
+func opaqueNoEffect(doc string) stdModel {
+	return func(vc *VC, s *State, call *ast.CallExpr, args []*Term) []*Term {
+		vc.prog.Assumed[doc] = true
+		t := vc.frame().info.TypeOf(call)
+		var ts []types.Type
+		if tup, ok := t.(*types.Tuple); ok {
+			for i := 0; i < tup.Len(); i++ {
+				ts = append(ts, tup.At(i).Type())
+			}
+		} else if t != nil {
+			ts = []types.Type{t}
+		}
+		out := make([]*Term, len(ts))
+		for i, rt := range ts {
+			out[i] = vc.loadedDeep(s, rt, Fresh("lib.res", sortOf(rt)), "res")
+		}
+		return out
+	}
 }
